@@ -54,6 +54,9 @@ type Type struct {
 	// object lists again in its own Required()
 	Extend         string   `json:"extend,omitempty"`
 	RequiredRepeat []string `json:"required_repeat,omitempty"`
+	// Reference names the user type an object refers to (DSL Reference): attributes flagged FromRef are declared
+	// by name only and take type, default and validations from the attribute of that name in the referenced type
+	Reference string `json:"reference,omitempty"`
 }
 
 // Attr is an attribute: a (possibly named) typed slot with constraints.
@@ -67,6 +70,10 @@ type Attr struct {
 	View     string      `json:"view,omitempty"` // result-type attribute rendered with this view
 	Sec      string      `json:"sec,omitempty"`  // username | password | apikey:<scheme> | token | accesstoken
 	Inherited bool       `json:"inherited,omitempty"` // comes from the extended type (not re-declared in the DSL)
+	// FromRef: declared by name only under a Reference; Val is the EFFECTIVE validation (the referenced attribute's,
+	// with the keywords of Override replaced), Override what the referencing attribute sets itself
+	FromRef  bool        `json:"from_ref,omitempty"`
+	Override *Validation `json:"override,omitempty"`
 	ErrName  bool        `json:"err_name,omitempty"` // ErrorName(): the attribute of a custom error type that holds the error name
 }
 
